@@ -14,6 +14,10 @@ package knxnet
 //@   decoder
 //@   requires serviceID != nil && totalLen != nil
 //@   ensures [consumed] err == nil ==> n <= uint(len(data))
+//@   -- a header is rejected only for being short, or for its length or version octet (C01/C16: the TCP
+//@   -- worker relies on this to tell a stream it cannot resynchronise from a frame it must skip)
+//@   ensures [accepts] (err == nil) == (len(data) >= 6 && data[0] == 6 && data[1] == 16)
+//@   ensures [fields] len(data) >= 6 ==> *totalLen == uint16(data[4])<<8 | uint16(data[5])
 //@   assigns *serviceID, *totalLen
 
 //@ func Unpack(data []byte, srv *Service) (n uint, err error)
@@ -244,11 +248,14 @@ package knxnet
 //@   noterm
 //@   requires conn != nil && !closed(inbound)
 //@   ensures [closed] closed(inbound) && nclose(inbound) == old(nclose(inbound)) + 1
+//@   -- C01/C16: no datagram, however malformed or empty, ends the worker: it returns only after a read failed
+//@   ensures [ends.on.read.error] gcount("nreaderr") == old(gcount("nreaderr")) + 1
 //@   assigns nothing
 //@   loop 0 invariant !closed(inbound) && nclose(inbound) == old(nclose(inbound))
+//@   loop 0 invariant gcount("nreaderr") == old(gcount("nreaderr"))
 //@   loop 0 step [per.datagram] gcount("ndatagram") == prev(gcount("ndatagram")) + 1 && nsent(inbound) <= prev(nsent(inbound)) + 1
 //@   loop 0 assigns buffer
-//@   loop 0 ghost ndatagram nsent lastsent
+//@   loop 0 ghost ndatagram nsent lastsent nreaderr
 
 //@ func serveTCPSocket(conn *net.TCPConn, addr *net.TCPAddr, inbound chan<- Service)
 //@   props C16 C01
@@ -256,10 +263,14 @@ package knxnet
 //@   noterm
 //@   requires conn != nil && !closed(inbound)
 //@   ensures [closed] closed(inbound) && nclose(inbound) == old(nclose(inbound)) + 1
+//@   -- C01/C16: the worker ends only when the stream failed or cannot be resynchronised (a header that is
+//@   -- not a KNXnet/IP header, or a total length shorter than the header); no frame body ends it
+//@   ensures [ends.on.read.error] gcount("nreaderr") == old(gcount("nreaderr")) + 1 || pbyte(0) != 6 || pbyte(1) != 16 || uint16(pbyte(4))<<8 | uint16(pbyte(5)) < 6
 //@   assigns nothing
 //@   loop 0 invariant !closed(inbound) && nclose(inbound) == old(nclose(inbound))
+//@   loop 0 invariant gcount("nreaderr") == old(gcount("nreaderr"))
 //@   -- "does not hang": every iteration that comes back to the loop head has consumed stream bytes
 //@   loop 0 step [progress] gval("stream.pos") > prev(gval("stream.pos"))
 //@   loop 0 step [per.frame] nsent(inbound) <= prev(nsent(inbound)) + 1
 //@   loop 0 assigns nothing
-//@   loop 0 ghost stream.pos nsent lastsent
+//@   loop 0 ghost stream.pos nsent lastsent nreaderr peek.base
